@@ -146,6 +146,63 @@ def evaluate(sid, checks, tier="quick", seed=None):
     return res
 
 
+BENIGN = os.path.join(VERIF, "benign")
+ALL = ["C%02d" % i for i in range(1, 21)]
+
+
+def benign(src, bid, checks=None, tier="quick", seed=None):
+    """A change that is claimed to keep every property: it must build, pass the 71 tests, and every
+    check must stay silent on it. Stored under /verif/benign/<id>/ with the outcome."""
+    ensure_wt()
+    patch = os.path.join(src, "patch.diff")
+    rc_a, out_a = sh(["git", "apply", patch], cwd=WT)
+    rec = {"id": bid, "apply_rc": rc_a}
+    ok = rc_a == 0
+    if ok:
+        rc_b, _ = sh(["cargo", "build", "--offline"], cwd=WT)
+        rc_b2, _ = sh(["cargo", "build", "--offline", "--features", "verif"], cwd=WT)
+        rc_t, out_t = sh(["cargo", "test", "--offline", "--tests"], cwd=WT)
+        p, f = tests_summary(out_t)
+        rec.update({"build_rc": rc_b, "build_verif_rc": rc_b2, "tests_passed": p, "tests_failed": f})
+        ok = rc_b == 0 and rc_b2 == 0 and rc_t == 0 and p == 71 and f == 0
+    sh("git checkout -- . && git clean -fdq tests src", cwd=WT)
+    rec["well_formed"] = bool(ok)
+    if not ok:
+        print(json.dumps(rec))
+        return False
+    dst = os.path.join(BENIGN, bid)
+    os.makedirs(dst, exist_ok=True)
+    shutil.copy(patch, os.path.join(dst, "patch.diff"))
+    if os.path.exists(os.path.join(src, "notes.md")):
+        shutil.copy(os.path.join(src, "notes.md"), os.path.join(dst, "notes.md"))
+    assert repo_clean(), "/repo has uncommitted changes"
+    rc, out = sh(["git", "-C", "/repo", "apply", os.path.join(dst, "patch.diff")])
+    assert rc == 0, out
+    res = {}
+    try:
+        for c in (checks or ALL):
+            t = time.time()
+            cmd = ["python3", os.path.join(VERIF, "run.py"), c, "--tier", tier] + ([] if seed is None else ["--seed", str(seed)])
+            rc, out = sh(cmd, cwd=VERIF, timeout=7200)
+            sigs = [l.strip() for l in out.splitlines() if l.startswith("  C") and ":" in l][:4]
+            res[c] = {"rc": rc, "seconds": round(time.time() - t), "signatures": sigs, "errors": [l for l in out.splitlines() if l.startswith("ERROR") or "inconclusive" in l.lower()][:3]}
+            if rc != 0:
+                print(bid, c, "rc=%d" % rc, "; ".join(x[:200] for x in sigs[:2]), res[c]["errors"][:1], flush=True)
+    finally:
+        sh(["git", "-C", "/repo", "checkout", "--", "."])
+        assert repo_clean()
+    sh(["git", "-C", VERIF, "checkout", "--", "evidence"])
+    rec["checks"] = res
+    rec["alarms"] = [c for c, r in res.items() if r["rc"] == 1]
+    rec["not_ok"] = [c for c, r in res.items() if r["rc"] not in (0, 1)]
+    mp = os.path.join(dst, "meta.json")
+    old = json.load(open(mp)) if os.path.exists(mp) else {}
+    old.update(rec)
+    json.dump(old, open(mp, "w"), indent=1)
+    print(bid, "alarms:", rec["alarms"], "errors:", rec["not_ok"], "total %ds" % sum(r["seconds"] for r in res.values()), flush=True)
+    return True
+
+
 if __name__ == "__main__":
     a = sys.argv[1:]
     tier = "quick"
@@ -160,6 +217,8 @@ if __name__ == "__main__":
         del a[i:i + 2]
     if a[0] == "confirm":
         sys.exit(0 if confirm(a[1], a[2], a[3]) else 1)
+    elif a[0] == "benign":
+        benign(a[1], a[2], a[3:] or None, tier, seed)
     elif a[0] == "reconfirm":
         reconfirm()
     elif a[0] == "eval":
